@@ -903,6 +903,15 @@ def run(tier):
     chk.guard(rule_r6, chk, prog)
     chk.guard(rule_r7, chk, prog)
     chk.guard(rule_r8, chk, prog)
+    from .. import memo
+
+    def _memo_rule(chk, prog):
+        chk.rule('C10.R9', 'memoised functions of the checker: the cached value depends only on the cache key')
+        memo.report(chk, prog, 'C10.R9', 'memoised functions of the checker',
+                    lambda m, q: m.name == 'checker',
+                    'a limit cached before the automatic time limit is stored (or before the options change) is the one every later check runs with: the command is no longer stopped after the configured time')
+
+    chk.guard(_memo_rule, chk, prog)
     extra = None
     if tier == 'thorough':
         from .. import selftest
